@@ -349,6 +349,51 @@ def r20_8(ctx):
         ctx.ok("R20.8", where(ex), "no unqueued reader consults the reverse index", nontrivial=False)
 
 
+PER_SESSION_CLASSES = ("POP3CommandHandler", "POP3ClientProxy", "Authenticated", "BaseClientHandler", "PreAuthenticated", "IMAPClientCommand", "FetchAtt", "SearchContext", "IMAPSearch")
+
+
+def r20_9(ctx):
+    """What a POP3 session knows (its snapshot, its DELE marks, the sizes it has announced, keyed by *its* message numbers)
+    belongs to that session.  A mutable container bound in the class body is one object shared by every instance: sizes
+    cached under one session's numbering are served to the next session, whose numbers mean other messages.  So every
+    container attribute that the methods of a per-session / per-command class fill in place is bound on the instance in
+    `__init__` (or a start-of-session method), never only in the class body."""
+    p = ctx.p
+    n = 0
+    for cname in PER_SESSION_CLASSES:
+        if cname not in p.classes:
+            continue
+        ci = p.cls(cname)
+        shared = {}
+        for st in ci.node.body:
+            tgt, val = None, None
+            if isinstance(st, ast.AnnAssign) and isinstance(st.target, ast.Name) and st.value is not None:
+                tgt, val = st.target.id, st.value
+            elif isinstance(st, ast.Assign) and len(st.targets) == 1 and isinstance(st.targets[0], ast.Name):
+                tgt, val = st.targets[0].id, st.value
+            if tgt and (isinstance(val, (ast.Dict, ast.List, ast.Set, ast.ListComp, ast.DictComp, ast.SetComp)) or (isinstance(val, ast.Call) and isinstance(val.func, ast.Name) and val.func.id in ("dict", "list", "set", "defaultdict", "deque", "OrderedDict", "Counter"))):
+                shared[tgt] = st
+        inst = set()
+        mutated = {}
+        for m in ci.methods.values():
+            for x in ast.walk(m.node):
+                if isinstance(x, (ast.Assign, ast.AnnAssign)):
+                    for t in (x.targets if isinstance(x, ast.Assign) else [x.target]):
+                        if isinstance(t, ast.Attribute) and isinstance(t.value, ast.Name) and t.value.id == "self":
+                            inst.add(t.attr)
+                if isinstance(x, ast.Subscript) and isinstance(x.ctx, (ast.Store, ast.Del)) and isinstance(x.value, ast.Attribute) and isinstance(x.value.value, ast.Name) and x.value.value.id == "self":
+                    mutated.setdefault(x.value.attr, x)
+                if isinstance(x, ast.Call) and isinstance(x.func, ast.Attribute) and x.func.attr in ("add", "append", "extend", "update", "setdefault", "pop", "clear", "discard", "remove", "insert") and isinstance(x.func.value, ast.Attribute) and isinstance(x.func.value.value, ast.Name) and x.func.value.value.id == "self":
+                    mutated.setdefault(x.func.value.attr, x)
+        n += 1
+        bad = [a for a in shared if a in mutated and a not in inst]
+        for a in bad:
+            ctx.bad("R20.9", ci.module, cname, f"{a} = {norm(shared[a].value, 30)} in the class body", f"`{cname}.{a}` is a mutable container bound in the class body and filled in place by the methods (`{norm(mutated[a], 60)}`), never bound on the instance: all sessions share one object - what one session cached under its own message numbers is served to the next, whose numbers denote other messages", shared[a].lineno)
+        if not bad:
+            ctx.ok("R20.9", f"{ci.module}:{cname}", f"{cname}: every container its methods fill in place is bound per instance ({len(mutated)} such attribute(s))", nontrivial=bool(mutated))
+    ctx.floor("R20.9", n, 5, "per-session / per-command classes")
+
+
 def run(ctx):
     ctx.do(r20_1)
     ctx.do(r20_2)
@@ -362,5 +407,6 @@ def run(ctx):
     ctx.do(c16.r16_1)
     from . import c03, c05
     ctx.do(c05.r5_3)
+    ctx.do(r20_9)
     ctx.do(c03.r3_6)  # POP3 reads run beside a suspended expunge: the lists they index must never be half-updated
     ctx.note("R20.6 (sizes from the shared renderer) is decided by C16 R16.1")
